@@ -946,4 +946,8 @@ def run(prop, args):
                             "alpha-map clip regions are not set (not in the statement)",
                             "a write that stores the value already present is invisible to a before/after comparison",
                             "TLC/SANY and the CommunityModules Json/IOUtils readers are trusted"]
+        # root specification (spec/Pixman.tla): clips built by region operations, consumed by composites; the changed
+        # pixels are exactly those of the composite region (nothing outside it: C03)
+        import pipeline
+        pipeline.stage(chk, args)
     return chk.finish()
